@@ -97,6 +97,30 @@ fn exact_demand(b: &[u8], pt: Option<u8>, min: usize) -> Option<RtcpParseError> 
     None
 }
 
+/// The exactness clauses as they apply to compound parsing: below 4 bytes the minimum; and a
+/// datagram that is shorter than what its FIRST header (version 2) announces is a version-2
+/// input whose length differs from 4*(length field+1) — there is no packet type to match and a
+/// longer input is not an error for a compound, so only the truncated half applies.
+fn compound_demand(b: &[u8]) -> Option<RtcpParseError> {
+    if b.len() < 4 {
+        return Some(RtcpParseError::Truncated { expected: 4, actual: b.len() });
+    }
+    let h = 4 * (be16(b, 2) + 1);
+    if b[0] >> 6 == 2 && b.len() < h {
+        return Some(RtcpParseError::Truncated { expected: h, actual: b.len() });
+    }
+    None
+}
+
+fn compound_exact_lie(b: &[u8], r: &Result<(), RtcpParseError>) -> Option<String> {
+    let want = compound_demand(b)?;
+    match r {
+        Err(e) if *e == want => None,
+        Err(e) => Some(format!("compound of {} bytes: must report {want:?}, got {e:?}", b.len())),
+        Ok(()) => Some(format!("compound of {} bytes: must report {want:?} but was accepted", b.len())),
+    }
+}
+
 pub struct VerdictA {
     pub codes: Vec<u8>,
     pub violation: Option<(String, String)>,
@@ -203,6 +227,13 @@ pub fn judge_a(b: &[u8]) -> VerdictA {
     }
     plain!("ReportBlock", ReportBlock::parse(b), Some(24));
     plain!("Compound", Compound::parse(b), Some(4));
+    if v.violation.is_none() {
+        if let Ok(r) = guarded(|| Compound::parse(b).map(|_| ())) {
+            if let Some(d) = compound_exact_lie(b, &r) {
+                v.violation = Some(("Inexact:Compound".into(), d));
+            }
+        }
+    }
     plain!("NackFci", <Nack as FciParser>::parse(b), None);
     plain!("FirFci", <Fir as FciParser>::parse(b), None);
     plain!("SliFci", <Sli as FciParser>::parse(b), None);
@@ -426,15 +457,9 @@ impl Check for C18 {
             ctx.stats.trace_digest ^= fnv1a(seed ^ 0xc0, &[code(&r)]);
             if let Err(e) = &r {
                 ctx.stats.count("layerA_errors_checked", 1);
-                let lie = generic_lie(d, e, None).or_else(|| {
-                    if d.len() < 4 && *e != (RtcpParseError::Truncated { expected: 4, actual: d.len() }) {
-                        Some(format!("compound of {} bytes: expected Truncated{{4,{}}}, got {e:?}", d.len(), d.len()))
-                    } else {
-                        None
-                    }
-                });
-                if let Some(detail) = lie {
-                    out.push(Violation { class: "Lie:Compound".into(), detail, episode: idx, case: J::obj().set("layer", "A").set("deliver", hex(d)), provenance: prov() });
+                let lie = generic_lie(d, e, None).map(|x| ("Lie:Compound", x)).or_else(|| compound_exact_lie(d, &r).map(|x| ("Inexact:Compound", x)));
+                if let Some((class, detail)) = lie {
+                    out.push(Violation { class: class.into(), detail, episode: idx, case: J::obj().set("layer", "A").set("deliver", hex(d)), provenance: prov() });
                 }
             }
         };
